@@ -112,18 +112,30 @@ func (p *RawParams) AddUpload(upload Upload, key, path string) *gqlerror.Error {
 		if ptr == nil {
 			return gqlerror.Errorf("path is missing \"variables.\" prefix, key: %s, path: %s", key, path)
 		}
-		if index, parseNbrErr := strconv.Atoi(p); parseNbrErr == nil {
-			if last {
-				ptr.([]any)[index] = upload
-			} else {
-				ptr = ptr.([]any)[index]
+		// the map paths come from the client: every step must be checked against the shape the
+		// variables really have instead of asserting it
+		switch container := ptr.(type) {
+		case []any:
+			index, parseNbrErr := strconv.Atoi(p)
+			if parseNbrErr != nil || index < 0 || index >= len(container) {
+				return gqlerror.Errorf("invalid operations paths for key %s: %s does not match the variables", key, path)
 			}
-		} else {
 			if last {
-				ptr.(map[string]any)[p] = upload
+				container[index] = upload
 			} else {
-				ptr = ptr.(map[string]any)[p]
+				ptr = container[index]
 			}
+		case map[string]any:
+			if last {
+				if container == nil {
+					return gqlerror.Errorf("invalid operations paths for key %s: %s does not match the variables", key, path)
+				}
+				container[p] = upload
+			} else {
+				ptr = container[p]
+			}
+		default:
+			return gqlerror.Errorf("invalid operations paths for key %s: %s does not match the variables", key, path)
 		}
 	}
 
